@@ -68,6 +68,7 @@ Struct(h, ref) ==
       [] o.t = "repr"  -> [t |-> "repr", id |-> ref.n]
       [] o.t = "doc"   -> [t |-> "doc", content |-> Struct(h, IdRef(o.k)), args |-> Struct(h, IdRef(o.a))]
       [] o.t = "jsx"   -> [t |-> "jsx", name |-> o.name, props |-> Struct(h, IdRef(o.a)), kids |-> Struct(h, IdRef(o.k))]
+      [] OTHER         -> [t |-> o.t, id |-> ref.n]        \* an object the projection does not look into: opaque, by identity
 
 \* the same structure with the identity of opaque leaves forgotten too (to compare separately built trees)
 RECURSIVE Forget(_)
